@@ -651,6 +651,25 @@ def abort_broadcast(fb):
             if nb is not None and nb.crate.name == DAEMON and builds_variant(fb, nb, 'Message', 'ThreadAbort') and \
                     reaches_call_c(fb, nb, lambda nm: nm.endswith(('Sender::<T>::send', 'DispatchBox::<K, M>::send'))):
                 cands.append(nb)
+        # the broadcast proper is the innermost such function: one that merely calls it (a `supervise` helper holding the
+        # manager loop, a method of a supervisor struct) is part of the manager, not the broadcast
+        def own(b):
+            def here(x):
+                return any(s_['k'] == 'assign' and s_['r']['k'] == 'agg' and (s_['r'].get('adt') or '').endswith('Message') and
+                           s_['r'].get('vname') == 'ThreadAbort' for blk in x.blocks for s_ in blk['stmts'])
+            return here(b) or any(here(c) for c in fb.bodies(b.crate.name) if c.defkind == 'Closure' and c.path.startswith(b.path + '::{closure'))
+        for _ in range(4):
+            if not cands or own(cands[0]):
+                break
+            inner = []
+            for bb, t, fn in user_calls(cands[0]):
+                nb = fb.body(mir.callee_name(fn)) if fn else None
+                if nb is not None and nb.crate.name == DAEMON and nb.defkind != 'Closure' and builds_variant(fb, nb, 'Message', 'ThreadAbort') and \
+                        reaches_call_c(fb, nb, lambda nm: nm.endswith(('Sender::<T>::send', 'DispatchBox::<K, M>::send'))):
+                    inner.append(nb)
+            if not inner:
+                break
+            cands = inner
         return cands[0] if cands else None
     return _memo(fb, 'abort_broadcast', find)
 
